@@ -17,6 +17,7 @@ struct { unsigned calls; qstr enc; KeyList senders; } G_mp;       /* makePostpon
 #define HM_ACCEPT(m) (MSG_TME(m) != 0 && TME_USAGE(MSG_TME(m)) == S("urn:xmpp:atm:1") && MSG_FROM(m) != gh_own_jid)
 /* the sender's own key is authenticated */
 #define SENDER_AUTH(level) ((level) == AUTHENTICATED)
+#define SENDER_KEY_AUTH SENDER_AUTH(gh_sender_tl)
 /* scope: an own endpoint may decide about keys of every owner, a contact's endpoint only about keys of that contact (here: of g_o) */
 #define SENDER_IN_SCOPE(senderBareJid) ((senderBareJid) == gh_own_bare || (senderBareJid) == g_o)
 
